@@ -828,7 +828,17 @@ func writeDynamic(rng Rand, w *BitWriter, toks []Tok, outBefore int, shape int, 
 		}
 	case FaultOversubDist:
 		nz := countNonZero(distLens)
-		if nz >= 2 {
+		if rng.Intn(3) == 0 {
+			// heavily over-subscribed: several codes of length 1 or 2 (Kraft sum 2 and more)
+			l := 1 + rng.Intn(2)
+			k := []int{4, 6, 8, 16}[rng.Intn(4)]
+			for i := 0; i < k && i < len(distLens); i++ {
+				distLens[rng.Intn(min(len(distLens), 30))] = l
+			}
+			for i := 0; i < 4; i++ {
+				distLens[i] = l
+			}
+		} else if nz >= 2 {
 			for k := 0; k < 1000; k++ {
 				sym := rng.Intn(len(distLens))
 				if distLens[sym] >= 2 {
@@ -964,7 +974,15 @@ func writeDynamic(rng Rand, w *BitWriter, toks []Tok, outBefore int, shape int, 
 		clShape = 1
 	}
 	clLens := assignLengths(rng, clFreq, 7, clShape)
-	if fault == FaultOversubCL {
+	if fault == FaultOversubCL && rng.Intn(3) == 0 {
+		l := 1 + rng.Intn(2)
+		for i := 0; i < 4+rng.Intn(12); i++ {
+			clLens[rng.Intn(19)] = l
+		}
+		for i := 0; i < 4; i++ {
+			clLens[i] = l
+		}
+	} else if fault == FaultOversubCL {
 		done := false
 		for k := 0; k < 200 && !done; k++ {
 			sym := rng.Intn(19)
